@@ -887,7 +887,7 @@ impl Check for C01 {
             }
         }
         // generated + mutated documents
-        let n = g.count(12_000, 400_000);
+        let n = g.count(20_000, 1_500_000);
         for k in 0..n {
             let d = doc::gen_any(&mut r);
             match k % 4 {
@@ -898,6 +898,12 @@ impl Check for C01 {
                     emit(Case::new("mut", m));
                 }
             }
+        }
+        // hostile number literals (long digit runs, exact halfway expansions up to ~1100 digits,
+        // huge exponents), bare and inside containers
+        let n = g.count(3_000, 200_000);
+        for _ in 0..n {
+            emit(Case::with("num", vec![], &[r.next() as i64]));
         }
         // token sequences
         let total = tokens::count(if g.scale >= 0.5 { 3 } else { 2 });
@@ -948,6 +954,39 @@ impl Check for C01 {
                 run_input(ctx, &b, true);
                 ctx.sample("deep");
             }
+            "num" => {
+                let mut r = crate::rng::Rng::new(c.p(0) as u64);
+                let lit = match r.below(3) {
+                    0 => crate::gen::numlit::hostile(&mut r),
+                    1 => crate::gen::numlit::number_shape(r.range(1, 140), r.below(64) as usize, r.chance(1, 4), r.range(0, 40)),
+                    _ => {
+                        let x = crate::gen::numlit::random_f64_bits(&mut r);
+                        match crate::gen::numlit::halfway(x) {
+                            Some(l) => {
+                                let k = r.below(3) as usize;
+                                if r.chance(1, 3) {
+                                    crate::gen::numlit::respell(&mut r, &l[k])
+                                } else {
+                                    l[k].clone()
+                                }
+                            }
+                            None => "1".into(),
+                        }
+                    }
+                };
+                let doc = match r.below(4) {
+                    0 => lit.clone(),
+                    1 => format!("[{}]", lit),
+                    2 => format!("{{\"a\":{},\"b\":[-{}]}}", lit, lit),
+                    _ => format!(" {} ", lit),
+                };
+                ctx.class("input:number-literal");
+                if lit.len() > 700 {
+                    ctx.class("input:number>700-digits");
+                }
+                run_input(ctx, doc.as_bytes(), false);
+                ctx.sample("num");
+            }
             "corpus" => {
                 let Some(mut f) = crate::mon::c03::corpus(c.p(0) as usize) else { return };
                 if c.p(1) > 0 {
@@ -974,7 +1013,7 @@ impl Check for C01 {
         if b.starts_with("miri") {
             vec!["miri:nodom-driver"]
         } else if b == "native-rel" {
-            vec!["input:deep>128", "input:generated", "input:non-utf8", "outcome:ok", "outcome:err", "ledger:checked", "input:>=390KB"]
+            vec!["input:deep>128", "input:generated", "input:non-utf8", "outcome:ok", "outcome:err", "ledger:checked", "input:>=390KB", "input:number-literal", "input:number>700-digits"]
         } else {
             vec!["input:generated", "outcome:ok", "outcome:err"]
         }
